@@ -33,6 +33,8 @@ def asan_runs(ctx):
                         funcs=[wasmenc.Func([], [], [], [('call', 0)]), wasmenc.Func([], [], [], [('nop',)])],
                         exports=[('rün-it!', 'func', 1), ('x' * 300, 'func', 2), ('__a__b_X_', 'func', 1)], names={1: 'füü', 2: 'b-a/r'})
     mods.append(('utf8_names', nm))
+    for k, nmap in enumerate(({0: 'dup', 1: 'dup', 2: 'zed'}, {0: 'a', 1: 'a', 2: 'a', 3: 'a'}, {0: 'a', 1: 'z', 2: 'z'}, {0: 'q', 2: 'q', 3: 'b', 1: 'b'})):
+        mods.append(('dup_names_%d' % k, wasmenc.Module(funcs=[wasmenc.Func([], [], [], [('nop',)]) for _ in range(4)], exports=[('f', 'func', 0)], names=nmap)))
     opts = [[], ['-p'], ['-f', '1', '-t', '1'], ['-f', '2', '-t', '3'], ['-m'], ['-g', '-f', '1', '-t', '2'], ['-g', '-p']]
     fails = []
     n = 0
@@ -83,6 +85,11 @@ def make_jobs(ctx):
         src = os.path.join(H, 'kernels', 'c10_names.c')
         jobs.append(Job('names_%s%s' % (h, ''.join(defs).replace('-D', '_')), [src], entry='harness_' + h, incs=[W], defs=c08.DEFS + defs, unwind=un, flags=['--no-malloc-may-fail'],
                         backends=['sat', 'kissat'], witnesses=['end'], timeout=600, sample={'kernel': h}))
+    src = os.path.join(H, 'kernels', 'c10_dupnames.c')
+    for nf in ((3, 4) if ctx.quick else (2, 3, 4, 5)):
+        jobs.append(Job('names_duplicates_%d' % nf, [src], entry='harness_dupnames', incs=[W], defs=c08.DEFS + ['-DNF=%d' % nf], unwind=8, flags=['--no-malloc-may-fail'],
+                        backends=['sat', 'kissat'], witnesses=['end'], timeout=600, replay=dict(sources=[src] + [x for x in c08.SRCS if not x.endswith('reader.c')] + [os.path.join(W, 'sha1.c')], incs=[W], defs=c08.DEFS + ['-DNF=%d' % nf, '-Dharness=harness_dupnames'], asan=True),
+                        sample={'kernel': 'wasmFunctionNamesRemoveDuplicates', 'functions': nf, 'names': 'each absent or one of a,b,c: every duplicate pattern'}))
     src = os.path.join(H, 'kernels', 'c07_literal.c')
     for t in ('f32', 'f64', 'i32', 'i64'):
         jobs.append(Job('literal_buffers_%s' % t, [src], entry='harness_' + t, incs=[W], defs=c08.DEFS, unwind=40, flags=['--no-malloc-may-fail'], backends=['sat', 'kissat'],
